@@ -14,7 +14,7 @@
 #   PARTS="break" ./robustness.sh     a part only (break, benign, variants)
 set -u
 export GOFLAGS=-mod=mod GOPROXY=off GOSUMDB=off GOTOOLCHAIN=local
-MUST_BREAK="C19-1 C19-2 C19-b1 C19-b2 C19-c1 C19-c2 C19-e1 C19-e2 C19-f1 C19-f2 C19-g1 C19-g2 C19-h21 C19-h22 C19-j22 C19-k21 C19-k22 C19-l21 C19-l22 C19-m21 C19-m22"
+MUST_BREAK="C19-1 C19-2 C19-b1 C19-b2 C19-c1 C19-c2 C19-e1 C19-e2 C19-f1 C19-f2 C19-g1 C19-g2 C19-h21 C19-h22 C19-j22 C19-k21 C19-k22 C19-l21 C19-l22 C19-m21 C19-m22 C19-n22"
 STILL_OPEN="C01-j3 C13-j1 C13-j2 C13-k1"
 T=/tmp/c19access.$$; mkdir -p $T; trap "rm -rf $T" EXIT
 (cd /verif/harness && go build -o $T/extract-access ./cmd/extract-access) || exit 2
